@@ -15,6 +15,9 @@
     of emitter calls and node-list edits `serialize` of the Builder model = the specification's linearisation of the edited document
     ("editing the node list yields the code of the edited sequence").
 
+  * `finalize_semantics`, `finalize_appends_pool`, `finalize_keeps_cursor` – a Compiler's finalize = passes + serialize_to: the pending
+    global constant pool is linked behind the LAST node whatever the cursor is (GlobalConstPoolPass), so finalize issues the calls of the
+    node list followed by one embed_const_pool; `edit_semantics_c` is `edit_semantics` for both emitter kinds.
   * `serialize_replays_partial` – an edit-free sequence of unconditionally accepted calls (instructions with options / extra register /
     comment, align, comment, raw embed) is serialised as `section 0` followed by exactly that sequence.
 
@@ -31,6 +34,7 @@ import AsmjitVerif.Lemmas.C08Replay
 import AsmjitVerif.Lemmas.C08Replay2
 import AsmjitVerif.Lemmas.C08Groups
 import AsmjitVerif.Lemmas.C08Cpool
+import AsmjitVerif.Lemmas.C08Passes
 import AsmjitVerif.Lemmas.C08Local
 
 namespace AsmjitVerif.Props.C08
@@ -150,6 +154,70 @@ def sampleActs2 : List Act :=
 example : (sampleActs2.foldl MList.apply (Builder.St.init 8).l).abs.items = (sampleActs2.foldl Doc.apply (Spec.St.init 8).d).items := by decide
 example : (sampleActs2.foldl MList.apply (Builder.St.init 8).l).abs.gap = (sampleActs2.foldl Doc.apply (Spec.St.init 8).d).gap := by decide
 example : (sampleActs2.foldl MList.apply (Builder.St.init 8).l).list = [0, 3, 5, 2] := by decide
+
+/-! ## finalize of a Compiler: passes, then serialize_to -/
+
+/-- `edit_semantics` for Builder and Compiler alike (the emitter kind only decides whether `_new_const` exists) -/
+theorem edit_semantics_c (ops : List Op) (r : Nat) (c : Bool) :
+    serialize (run (Builder.St.init r c) ops) = Spec.linearize (Spec.run (Spec.St.init r c) ops) := by
+  have h := sim_run ops _ _ (init_sim_c r c)
+  have hl : (run (Builder.St.init r c) ops).l.list = (Spec.run (Spec.St.init r c) ops).d.items := congrArg Doc.items h.doc
+  simp [serialize, Spec.linearize, hl, h.front]
+
+/-- what `finalize()` hands to the assembler (run_passes with GlobalConstPoolPass = add_after(pool, last_node()), then serialize_to) is the
+    specification's linearisation after its own pass step - for every history of emitter calls, global constants and node-list edits,
+    including remove_nodes ranges that start on, contain or end on section nodes and any cursor position at finalize -/
+theorem finalize_semantics (ops : List Op) (r : Nat) (c : Bool) :
+    finalizeCalls (run (Builder.St.init r c) ops) = Spec.finalizeCalls (Spec.run (Spec.St.init r c) ops) := by
+  have h := sim_passes _ _ (sim_run ops _ _ (init_sim_c r c))
+  have hl := congrArg Doc.items h.doc
+  simp only [MList.abs] at hl
+  simp [finalizeCalls, Spec.finalizeCalls, serialize, Spec.linearize, hl, h.front]
+
+/-- finalize = serialize(nodes ++ global pool at the end): when a global constant pool is pending (and has not been linked), the calls of
+    finalize are the calls of the node list followed by ONE embed_const_pool of the pool - independent of where the cursor is -/
+theorem finalize_appends_pool (ops : List Op) (r : Nat) (c : Bool) (n : Nat)
+    (hg : (run (Builder.St.init r c) ops).f.gpool = some n) (hn : n ∉ (run (Builder.St.init r c) ops).l.list)
+    (hne : (run (Builder.St.init r c) ops).l.list ≠ []) :
+    finalizeCalls (run (Builder.St.init r c) ops) =
+      serialize (run (Builder.St.init r c) ops) ++ [(nodeAt (run (Builder.St.init r c) ops).f n).toCall] := by
+  have hsim := sim_run ops _ _ (init_sim_c r c)
+  have hl : (run (Builder.St.init r c) ops).l.list = (Spec.run (Spec.St.init r c) ops).d.items := congrArg Doc.items hsim.doc
+  have hwf := spec_wf _ _ hsim
+  have hp := pool_goes_last (Spec.run (Spec.St.init r c) ops) n hwf.1 hwf.2 (by rw [← hsim.front]; exact hg) (by rw [← hl]; exact hn)
+    (by rw [← hl]; exact hne)
+  rw [finalize_semantics, edit_semantics_c]
+  simp only [Spec.finalizeCalls, Spec.linearize, hp.1, List.map_append, List.map_cons, List.map_nil, nodeAt, hp.2.2.1, hsim.front]
+
+/-- … and the cursor (gap) is where it was -/
+theorem finalize_keeps_cursor (ops : List Op) (r : Nat) (c : Bool) (n : Nat)
+    (hg : (Spec.run (Spec.St.init r c) ops).f.gpool = some n) (hn : n ∉ (Spec.run (Spec.St.init r c) ops).d.items)
+    (hne : (Spec.run (Spec.St.init r c) ops).d.items ≠ []) :
+    (Spec.runPasses (Spec.run (Spec.St.init r c) ops)).d.gap = (Spec.run (Spec.St.init r c) ops).d.gap := by
+  have hwf := spec_wf _ _ (sim_run ops _ _ (init_sim_c r c))
+  exact (pool_goes_last _ n hwf.1 hwf.2 hg hn hne).2.1
+
+-- non-vacuity (family 2): a Compiler, two global constants (one repeated), the cursor moved back before finalize
+def samplePool : List Op :=
+  [.inst 1 ["a", "-", "-", "-", "-", "-"], .gconst 8 "1122334455667788", .inst 2 ["b", "-", "-", "-", "-", "-"],
+   .gconst 8 "0102030405060708", .gconst 8 "1122334455667788", .cursor (some 1), .inst 3 ["c", "-", "-", "-", "-", "-"]]
+
+example : finalizeCalls (run (Builder.St.init 8 true) samplePool) =
+    [.section 0, .inst 1 0 "-" "-" ["a", "-", "-", "-", "-", "-"], .inst 3 0 "-" "-" ["c", "-", "-", "-", "-", "-"],
+     .inst 2 0 "-" "-" ["b", "-", "-", "-", "-", "-"], .cpoolnode 0 8 "11223344556677880102030405060708"] := by decide
+example : (run (Builder.St.init 8 true) samplePool).f.gpool = some 2 ∧ 2 ∉ (run (Builder.St.init 8 true) samplePool).l.list := by decide
+-- a Builder has no global pool: the line is outside its interface
+example : (step (Builder.St.init 8 false) (.gconst 8 "1122334455667788")).2 = .pre := by decide
+
+-- non-vacuity (family 1): remove_nodes whose range ENDS on a section node after the links were cached; then the section in front of it
+-- is re-entered: the links are recomputed (dirty flag), the new code lands at the end of that section's region, not at the front
+def sampleRangeEnd : List Op :=
+  [.newsection, .newsection, .embed "01", .section 1, .embed "02", .section 2, .embed "03", .section 0, .embed "04",
+   .removerange 3 4, .section 1, .embed "05"]
+
+example : (run (Builder.St.init 8) (sampleRangeEnd.take 10)).l.dirty = true := by decide
+example : serialize (run (Builder.St.init 8) sampleRangeEnd) =
+    [.section 0, .data 35 1 1 "01", .data 35 1 1 "04", .section 1, .data 35 1 1 "03", .data 35 1 1 "05"] := by decide
 
 /-! ## An edit-free program replays as itself -/
 
